@@ -73,6 +73,7 @@ type opJ struct {
 	FaultN      int       `json:"fault_n,omitempty"`    // fail the n-th storage write of this operation (0 = none)
 	FaultAfter  bool      `json:"fault_after,omitempty"` // the failing write is applied before the error
 	Garbage     bool      `json:"garbage,omitempty"`    // corrupt: invalid JSON instead of Rule
+	Retry       bool      `json:"retry,omitempty"`      // the same update as the previous operation, which failed with a storage error
 }
 
 // ---------- building PD objects (always fresh: the manager keeps and mutates what it is given) ----------
@@ -193,6 +194,9 @@ func (o opJ) coq(writes []kvx13.Write) string {
 	var ws []string
 	for _, w := range writes {
 		ws = append(ws, wrefCoq(w.Key))
+	}
+	if o.Retry && o.FaultN == 0 {
+		return "ORetry " + o.updateCoq() + " " + coqfmt.List(ws)
 	}
 	return "OUpdate " + o.updateCoq() + " " + f + " " + coqfmt.List(ws)
 }
@@ -466,7 +470,7 @@ func (g *gen) rule(gid string) ruleJ {
 
 func (g *gen) maybeBreak(ru *ruleJ) {
 	r := g.r
-	switch r.Pick(20, 15, 15, 15, 10, 10, 15) {
+	switch r.Pick(20, 15, 15, 15, 10, 10, 15, 12) {
 	case 0:
 		ru.Count = 0
 	case 1:
@@ -481,6 +485,8 @@ func (g *gen) maybeBreak(ru *ruleJ) {
 		ru.BadOp = true
 	case 6:
 		ru.Role, ru.Count = "leader", 2
+	case 7:
+		ru.Start, ru.End = "30", "30" // empty range
 	}
 }
 
@@ -758,6 +764,7 @@ func runCase(R *res.Result, c caseJ, r *rng.R) (caseJ, caseOut) {
 			if out.res == "(RErr EStorage)" && r.Pct(65) { // the client retries the same update
 				o2 := o
 				o2.FaultN = 0
+				o2.Retry = true
 				c.Ops = append(c.Ops, o2)
 				out2 := step(o2)
 				R.Count("retry")
